@@ -1,6 +1,9 @@
 import HotstuffModel.Driver.Sexp
 import HotstuffModel.Driver.Node
 import HotstuffModel.Driver.Unit
+import HotstuffModel.Driver.Codec
+import HotstuffModel.Driver.Store
+import HotstuffModel.Driver.QuorumWaiter
 import HotstuffModel.Model.Committee
 /-
 Model driver: one request per line on stdin (an s-expression), one answer line on stdout.
@@ -25,10 +28,21 @@ def handlePure (e : Sexp) : Option Sexp :=
 structure DState where
   node : Option NodeDriver := none
   agg : Option AggDriver := none
+  store : StoreState := {}
+  qw : QWState := {}
 
 def dispatch (st : DState) (e : Sexp) : DState × Sexp :=
   match handlePure e with
   | some r => (st, r)
+  | none =>
+  match Codec.handleCodec e with
+  | some r => (st, r)
+  | none =>
+  match stepStore st.store e with
+  | some (s', r) => ({ st with store := s' }, r)
+  | none =>
+  match stepQW st.qw e with
+  | some (s', r) => ({ st with qw := s' }, r)
   | none =>
   match handleUnit e with
   | some r => (st, r)
